@@ -16,6 +16,13 @@ def main():
     seeds = sys.argv[1:] or sorted(os.path.basename(d) for d in glob.glob('/verif/seeded/C*'))
     man = json.load(open('/verif/MANIFEST.json'))
     props = [c['property_id'] for c in man['checks']]
+    # snapshot of the checker (binary, property wiring, known findings) so that work in /verif during a long
+    # sweep cannot influence it; the worktree below pins /repo at the HEAD the sweep started from
+    home = tempfile.mkdtemp(prefix='sweephome-', dir='/tmp')
+    os.makedirs(home + '/bin')
+    shutil.copy('/verif/bin/pverif', home + '/bin/pverif')
+    shutil.copytree('/verif/props', home + '/props')
+    shutil.copy('/verif/known_findings.json', home + '/known_findings.json')
     wt = tempfile.mkdtemp(prefix='seedsweep-', dir='/tmp')
     os.rmdir(wt)
     rc, out = sh(f'git -C /repo worktree add --detach {wt} HEAD')
@@ -31,16 +38,27 @@ def main():
                 json.dump(meta, open(d + '/meta.json', 'w'), indent=1)
                 print(s, 'PATCH DOES NOT APPLY', flush=True)
                 continue
+            # only checks whose packages contain a file touched by the patch can change their verdict (a check reads
+            # nothing but the packages listed in its props file); the others are recorded as not affected
+            touched = set()
+            for l in open(d + '/patch.diff'):
+                if l.startswith('+++ b/'):
+                    touched.add(os.path.dirname(l[6:].strip()))
+            relevant = []
+            for p in props:
+                pk = set(json.load(open(f'{home}/props/{p}.json')).get('packages', []))
+                if pk & touched or p == s.split('-')[0]:
+                    relevant.append(p)
             def run(p):
                 scratch = tempfile.mkdtemp(prefix='sweepout-', dir='/tmp')
-                env = dict(ENV, PVERIF_REPO=wt, PVERIF_OUT=scratch)
-                rc, out = sh(f'/verif/bin/pverif check {p} --tier quick', cwd='/verif', env=env)
+                env = dict(ENV, PVERIF_REPO=wt, PVERIF_OUT=scratch, PVERIF_HOME=home)
+                rc, out = sh(f'{home}/bin/pverif check {p} --tier quick', cwd=home, env=env)
                 shutil.rmtree(scratch, ignore_errors=True)
                 viol = [l for l in out.splitlines() if l.startswith('VIOLATION')]
                 return p, rc, viol
             caught = {}
             with concurrent.futures.ThreadPoolExecutor(max_workers=2) as ex:
-                for p, rc, viol in ex.map(run, props):
+                for p, rc, viol in ex.map(run, relevant):
                     if rc == 1 and viol:
                         v = viol[0]
                         i = v.find('obligation=')
@@ -50,11 +68,12 @@ def main():
             meta['caught_by'] = {k: v for k, v in caught.items() if k != '_errors'}
             if '_errors' in caught:
                 meta['sweep_check_errors'] = caught['_errors']
-            meta['swept_against'] = props
+            meta['swept_against'] = relevant
             json.dump(meta, open(d + '/meta.json', 'w'), indent=1)
             print(s, 'caught by', sorted(meta['caught_by']) or 'NONE', flush=True)
     finally:
         sh(f'git -C /repo worktree remove --force {wt}')
         shutil.rmtree(wt, ignore_errors=True)
+        shutil.rmtree(home, ignore_errors=True)
 
 main()
